@@ -81,7 +81,7 @@ pub fn replay_file(p: &Prop, path: &Path, verbose: bool) -> i32 {
         eprintln!("not json: {}", path.display());
         return 2;
     };
-    let sub = doc.get("sub").and_then(Value::as_str).unwrap_or("");
+    let sub = doc.get("sub").and_then(Value::as_str).unwrap_or("").trim_start_matches("regress:");
     let case = doc.get("case").cloned().unwrap_or(Value::Null);
     let r = crate::engine::catch(|| (p.replay)(sub, &case));
     match r {
@@ -120,6 +120,8 @@ pub fn run_regressions(ctx: &Ctx, p: &Prop) {
         let Ok(b) = std::fs::read(&f) else { continue };
         let Ok(doc) = serde_json::from_slice::<Value>(&b) else { continue };
         let sub = doc.get("sub").and_then(Value::as_str).unwrap_or("").to_string();
+        // (a case that was itself found by the regression tier carries the tier's prefix)
+        let sub = sub.trim_start_matches("regress:").to_string();
         let case = doc.get("case").cloned().unwrap_or(Value::Null);
         let r = crate::engine::catch(|| (p.replay)(&sub, &case));
         acc.evals += 1;
